@@ -695,6 +695,7 @@ func main() {
 
 	// the public Query / Batch API on a capturing connection
 	connCases(o, g)
+	bindStream(o)
 
 	// live traffic of real sessions against the scripted node
 	liveCases(o, g)
